@@ -235,8 +235,12 @@ func (g *Gen) vary(kind string, w Val) Val {
 		return Time(t.Add(d).In(pick(g, zones, "vtz")))
 	case KFloat32, KFloat64:
 		f := parseFloat(w.S, 64)
-		if g.Cfg.Mode == "validate" && !g.Cfg.FullyPop && g.intn(0, 15, "vnan") == 0 {
-			// non-finite values reach the tests unchanged in Validate (every ordered comparison with NaN is false)
+		if g.Cfg.Mode == "validate" && g.intn(0, 15, "vnan") == 0 {
+			// non-finite values reach the tests unchanged in Validate (every ordered comparison with NaN is false);
+			// an infinity is a correctly typed, non-zero value of either float type
+			if g.Cfg.FullyPop {
+				return Val{T: kind, S: pick(g, []string{"+Inf", "-Inf"}, "vinf")}
+			}
 			return Val{T: kind, S: pick(g, []string{"NaN", "+Inf", "-Inf"}, "vnf")}
 		}
 		d := []float64{-2, -1, -0.5, 0.5, 1, 2}[g.intn(0, 5, "vf")]
